@@ -8,7 +8,7 @@ from ...context.render_context import RenderContext
 from ...core.utils import NameSanitizer
 from ...core.writers.code_writer import CodeWriter
 from ..visitor import Visitor
-from .generators.endpoint_method_generator import EndpointMethodGenerator
+from .generators.endpoint_method_generator import EndpointMethodGenerator, returns_async_iterator
 
 # Get logger instance
 logger = logging.getLogger(__name__)
@@ -157,7 +157,7 @@ class EndpointVisitor(Visitor[IROperation, str]):
 
                             # Check if this is an async generator (returns AsyncIterator)
                             # If so, remove 'async' from the first line
-                            is_async_generator = "AsyncIterator" in sig_stripped
+                            is_async_generator = returns_async_iterator(sig_stripped)
 
                             # Write all lines except the last
                             for idx, sig in enumerate(signature_lines[:-1]):
